@@ -109,21 +109,21 @@ fn iter_blocks<const N: usize>(log_on: bool) {
         let want = if stopped { RefBlock::End } else { ref_block(raw, o) };
         match want {
             RefBlock::End | RefBlock::Malformed => {
-                assert!(got.is_none(), "C17/iter-stop: nothing is yielded at the end of the data or after the first malformed block");
+                vassert!(got.is_none(), "C17/iter-stop: nothing is yielded at the end of the data or after the first malformed block");
                 stopped = true;
                 kani::cover!(want == RefBlock::Malformed && yielded >= 1, "cover: malformed block after a good one");
             }
             RefBlock::Channel => {
                 match got {
                     Some(ExtDiagBlock::Channel(c)) => {
-                        assert!(c.module == raw[o] & 0x3f, "C17/iter-channel: module number");
-                        assert!(c.channel == raw[o + 1] & 0x3f, "C17/iter-channel: channel number");
-                        assert!(c.input == (raw[o + 1] & 0x40 != 0) && c.output == (raw[o + 1] & 0x80 != 0), "C17/iter-channel: input/output flags");
-                        assert!(c.dtype == ref_channel_dtype(raw[o + 2]), "C17/iter-channel: channel data type");
-                        assert!(c.error == ref_channel_error(raw[o + 2]), "C17/iter-channel: channel error");
+                        vassert!(c.module == raw[o] & 0x3f, "C17/iter-channel: module number");
+                        vassert!(c.channel == raw[o + 1] & 0x3f, "C17/iter-channel: channel number");
+                        vassert!(c.input == (raw[o + 1] & 0x40 != 0) && c.output == (raw[o + 1] & 0x80 != 0), "C17/iter-channel: input/output flags");
+                        vassert!(c.dtype == ref_channel_dtype(raw[o + 2]), "C17/iter-channel: channel data type");
+                        vassert!(c.error == ref_channel_error(raw[o + 2]), "C17/iter-channel: channel error");
                         kani::cover!(true, "cover: channel block decoded");
                     }
-                    _ => assert!(false, "C17/iter-type: a channel-related block is yielded as such"),
+                    _ => vassert!(false, "C17/iter-type: a channel-related block is yielded as such"),
                 }
                 o += 3;
                 yielded += 1;
@@ -131,12 +131,12 @@ fn iter_blocks<const N: usize>(log_on: bool) {
             RefBlock::Device(len) => {
                 match got {
                     Some(ExtDiagBlock::Device(d)) => {
-                        assert!(d.len() == len - 1, "C17/iter-bounds: device block has the announced length");
-                        assert!(d.as_ptr() as usize == base + o + 1, "C17/iter-bounds: device block starts right after its header, consecutive to the previous block");
+                        vassert!(d.len() == len - 1, "C17/iter-bounds: device block has the announced length");
+                        vassert!(d.as_ptr() as usize == base + o + 1, "C17/iter-bounds: device block starts right after its header, consecutive to the previous block");
                         kani::cover!(len == 1, "cover: header-only device block");
                         kani::cover!(len > 2 && o > 0, "cover: device block with data after another block");
                     }
-                    _ => assert!(false, "C17/iter-type: a device-related block is yielded as such"),
+                    _ => vassert!(false, "C17/iter-type: a device-related block is yielded as such"),
                 }
                 o += len;
                 yielded += 1;
@@ -144,23 +144,23 @@ fn iter_blocks<const N: usize>(log_on: bool) {
             RefBlock::Identifier(len) => {
                 match got {
                     Some(ExtDiagBlock::Identifier(bits)) => {
-                        assert!(bits.len() == 8 * (len - 1), "C17/iter-bounds: identifier block has the announced length");
+                        vassert!(bits.len() == 8 * (len - 1), "C17/iter-bounds: identifier block has the announced length");
                         if len > 1 {
                             let i: usize = kani::any();
                             kani::assume(i < 8 * (len - 1));
                             let want_bit = raw[o + 1 + i / 8] >> (i % 8) & 1 != 0;
-                            assert!(bits[i] == want_bit, "C17/iter-identifier: bit i of the block is module i (LSB first)");
+                            vassert!(bits[i] == want_bit, "C17/iter-identifier: bit i of the block is module i (LSB first)");
                         }
                         kani::cover!(len > 1, "cover: identifier block with data");
                     }
-                    _ => assert!(false, "C17/iter-type: an identifier-related block is yielded as such"),
+                    _ => vassert!(false, "C17/iter-type: an identifier-related block is yielded as such"),
                 }
                 o += len;
                 yielded += 1;
             }
         }
     }
-    assert!(stopped, "C17/iter-terminates: iteration ends after at most length+1 calls");
+    vassert!(stopped, "C17/iter-terminates: iteration ends after at most length+1 calls");
     kani::cover!(yielded >= 3, "cover: three blocks in one buffer");
 }
 
@@ -189,10 +189,10 @@ fn c17_iter_blocks_logging_q() {
 #[kani::unwind(4)]
 fn c17_iter_no_buffer() {
     let ext = ExtendedDiagnostics::default();
-    assert!(!ext.is_available() && ext.raw_diag_buffer().is_none(), "C17/no-buffer: no buffer means no raw data");
+    vassert!(!ext.is_available() && ext.raw_diag_buffer().is_none(), "C17/no-buffer: no buffer means no raw data");
     let mut it = ext.iter_diag_blocks();
-    assert!(it.next().is_none(), "C17/no-buffer: iterating without a diagnostics buffer yields nothing");
-    assert!(it.next().is_none(), "C17/no-buffer: iterating without a diagnostics buffer yields nothing");
+    vassert!(it.next().is_none(), "C17/no-buffer: iterating without a diagnostics buffer yields nothing");
+    vassert!(it.next().is_none(), "C17/no-buffer: iterating without a diagnostics buffer yields nothing");
     kani::cover!(true, "cover: iteration without buffer returns");
 }
 
@@ -213,21 +213,21 @@ fn fill_stores<const N: usize>() {
         length: old_len,
     };
     let stored = ext.fill(&data[..dlen]);
-    assert!(stored == (cap > 0 && dlen <= cap), "C17/store: extended diagnostics are stored iff a buffer exists and they fit");
+    vassert!(stored == (cap > 0 && dlen <= cap), "C17/store: extended diagnostics are stored iff a buffer exists and they fit");
     if stored {
         let raw = ext.raw_diag_buffer().unwrap();
-        assert!(raw.len() == dlen, "C17/store: stored length equals the reply's extended part");
+        vassert!(raw.len() == dlen, "C17/store: stored length equals the reply's extended part");
         let mut i = 0;
         while i < dlen {
-            assert!(raw[i] == data[i], "C17/store: stored bytes equal the reply's extended part");
+            vassert!(raw[i] == data[i], "C17/store: stored bytes equal the reply's extended part");
             i += 1;
         }
         kani::cover!(dlen == cap && cap == N, "cover: exactly fitting diagnostics stored");
     } else {
-        assert!(ext.length == old_len, "C17/store: a rejected fill leaves the stored length unchanged");
+        vassert!(ext.length == old_len, "C17/store: a rejected fill leaves the stored length unchanged");
         let mut i = 0;
         while i < cap {
-            assert!(ext.buffer[i] == before[i], "C17/store: a rejected fill leaves the stored bytes unchanged");
+            vassert!(ext.buffer[i] == before[i], "C17/store: a rejected fill leaves the stored bytes unchanged");
             i += 1;
         }
         kani::cover!(cap > 0 && dlen == cap + 1, "cover: one byte too many rejected");
